@@ -4,7 +4,7 @@
 From Coq Require Import String List NArith Bool.
 From J5V.lib Require Import Outcome.
 From J5V.model Require Import ReflectDesc ReflectSchema Reflect ReflectOwn ReflectNames ReflectSpec.
-From J5V.proofs Require Import ReflectProofs ReflectInvProofs ReflectPathProofs ReflectFlattenProofs ReflectFuelProofs ReflectOwnProofs.
+From J5V.proofs Require Import ReflectProofs ReflectInvProofs ReflectPathProofs ReflectFlattenProofs ReflectFuelProofs ReflectDeclProofs ReflectOrderProofs ReflectOwnProofs ReflectOwnExactProofs.
 Import ListNotations.
 
 Lemma lookup_in_entry (S : sset) k e : lookup S k = Some e -> exists k', In (k', e) S.
@@ -183,4 +183,155 @@ Proof.
   intros S ow HC. destruct (o_reflect_full_on_supported D fs Hwp) as (_ & _ & Hok).
   destruct (Hok S ow (o_reflect_checked_ok D fs (S, ow) HC)) as [Hc Hm].
   split; [exact Hc|]. split; [exact (o_reflect_checked_client_names D fs S ow HC)|exact Hm].
+Qed.
+
+(* ================================================================ the checked cache over a history of calls *)
+
+(* ClientProperties does not depend on the fuel once it returns, nor on entries added to the set:
+   a run that returned cps returns cps with more fuel in every set that keeps the linked entries *)
+Definition linked_sub (S S' : sset) : Prop := forall k r, lookup S k = Some (Linked r) -> lookup S' k = Some (Linked r).
+
+Lemma client_props_mono S S' : linked_sub S S' -> forall f n ps cps,
+  client_props f S ps = Ok cps -> client_props (f + n) S' ps = Ok cps.
+Proof.
+  intros Hsub. induction f as [|f IHf]; intros n ps cps H; [discriminate|].
+  change (Datatypes.S f + n) with (Datatypes.S (f + n)).
+  revert cps H. induction ps as [|p r IHr]; intros cps H; [exact H|].
+  rewrite ReflectFlattenProofs.client_props_cons in H. rewrite ReflectFlattenProofs.client_props_cons.
+  assert (Hplain : forall q, obind (client_props (Datatypes.S f) S r) (fun rest => Ok (q :: rest)) = Ok cps ->
+                             obind (client_props (Datatypes.S (f + n)) S' r) (fun rest => Ok (q :: rest)) = Ok cps).
+  { intros q Hq. destruct (client_props (Datatypes.S f) S r) as [rest| | |] eqn:Er; cbn [obind] in Hq; try discriminate.
+    rewrite (IHr rest eq_refl). cbn [obind]. exact Hq. }
+  destruct p as [j path rq eo d s].
+  destruct s as [kw sp|od ty lr|er rules lr ext|k fl rules ext|k rules lr ext|item rules ext|item rules ext];
+    try (apply Hplain; exact H).
+  destruct fl; [|apply Hplain; exact H].
+  destruct (lookup S k) as [[|[n0 d0 en0 am0 cps0|n0 d0 ps0|n0 d0 a0 b0 c0]]|] eqn:El; try discriminate.
+  rewrite (Hsub k _ El).
+  destruct (client_props f S cps0) as [children| | |] eqn:Ec; cbn [obind] in H; try discriminate.
+  rewrite (IHf n cps0 children Ec). cbn [obind].
+  destruct (client_props (Datatypes.S f) S r) as [rest| | |] eqn:Er; cbn [obind] in H; try discriminate.
+  rewrite (IHr rest eq_refl). cbn [obind]. exact H.
+Qed.
+
+(* every object of the set: ClientProperties returns (at some recursion depth) and no JSON name twice *)
+Definition client_names_ok (S : sset) : Prop :=
+  forall k n d en am ps, lookup S k = Some (Linked (RObject n d en am ps)) ->
+    exists f cps, client_props f S ps = Ok cps /\ NoDup (map p_json cps).
+
+(* a successful build keeps every entry the set had *)
+Lemma message_schema_keeps D fuel st m st1 r :
+  message_schema D fuel st m = Ok (st1, r) -> ReflectDeclProofs.keeps st st1.
+Proof.
+  unfold message_schema. destruct (lookup st (msg_key m)) as [[|r0]|] eqn:El; try discriminate.
+  - intros H. injection H as <- _. apply ReflectDeclProofs.keeps_refl.
+  - pose proof (ReflectDeclProofs.build_msg_k D fuel ((msg_key m, Placeholder) :: st) m) as Hk.
+    destruct (build_msg D fuel ((msg_key m, Placeholder) :: st) m) as [[st2 r2]| | |]; cbn [obind]; try discriminate.
+    intros H. injection H as <- _. cbn [ReflectDeclProofs.Pk fst] in Hk.
+    apply ReflectDeclProofs.keeps_update_other; [exact El|].
+    eapply ReflectDeclProofs.keeps_trans; [apply ReflectDeclProofs.keeps_cons; exact El|exact Hk].
+Qed.
+
+Lemma o_message_schema_keeps D fuel s m s1 r :
+  o_message_schema D fuel s m = Ok (s1, r) -> ReflectDeclProofs.keeps (fst s) (fst s1).
+Proof.
+  intros H. destruct (o_message_schema_sim D fuel s m) as [He|He]; rewrite H in He; [discriminate|].
+  cbn in He. symmetry in He. exact (message_schema_keeps D fuel (fst s) m (fst s1) r He).
+Qed.
+
+(* the states any history of calls of the repaired SchemaCache.Schema can reach *)
+Inductive o_checked_reach (D : desc) : ost -> Prop :=
+| o_checked_new : o_checked_reach D ([], [])
+| o_checked_call s m : o_checked_reach D s -> In m (d_msgs D) ->
+    o_checked_reach D (fst (o_cache_schema_checked D (size D) s m)).
+
+(* one call keeps the invariant: old objects keep their client properties, new ones were checked *)
+Lemma o_cache_schema_checked_names D fuel s m :
+  client_names_ok (fst s) -> client_names_ok (fst (fst (o_cache_schema_checked D fuel s m))).
+Proof.
+  intros HI. unfold o_cache_schema_checked.
+  destruct (o_message_schema D fuel s m) as [[s1 r]| | |] eqn:EM; cbn [fst]; try exact HI.
+  destruct (names_check (fst s1) (registered (fst s) (fst s1))) as [u| | |] eqn:EN; cbn [fst]; try exact HI.
+  pose proof (o_message_schema_keeps D fuel s m s1 r EM) as Hk.
+  intros k n d en am ps Hl.
+  destruct (lookup (fst s) k) as [e0|] eqn:El0.
+  - pose proof (Hk k e0 El0) as Hl1. rewrite Hl in Hl1. injection Hl1 as <-.
+    destruct (HI k n d en am ps El0) as (f & cps & Hc & Hn).
+    exists (f + 0), cps. split; [|exact Hn].
+    apply (client_props_mono (fst s) (fst s1)); [|exact Hc].
+    intros k1 r1 H1. exact (Hk k1 _ H1).
+  - apply names_check_unit in EN.
+    assert (Hin : In (k, Linked (RObject n d en am ps)) (registered (fst s) (fst s1))).
+    { unfold registered. apply filter_In. split; [apply in_rev; rewrite rev_involutive; apply lookup_Some_In; exact Hl|].
+      cbn [fst]. rewrite El0. reflexivity. }
+    destruct (names_check_entry_object _ n d en am ps (names_check_all _ _ EN k _ Hin)) as (cps & Hc & Hn).
+    exists (length (fst s1) + 1), cps. split; assumption.
+Qed.
+
+(* the invariant of the repaired cache, for EVERY descriptor set (no hypothesis) and every history of calls,
+   failed ones included: every object the cache holds has pairwise distinct client property names,
+   through all flatten levels *)
+Theorem o_checked_reach_names D s : o_checked_reach D s -> client_names_ok (fst s).
+Proof.
+  induction 1 as [|s m Hs IH Hm].
+  - intros k n d en am ps H. discriminate.
+  - exact (o_cache_schema_checked_names D (size D) s m IH).
+Qed.
+
+(* the repaired cache only visits states the cache visits (a clash is a call that failed) *)
+Theorem o_checked_reach_is_reach D s : o_checked_reach D s -> ReflectOwnExactProofs.o_cache_reach D s.
+Proof.
+  induction 1 as [|s m Hs IH Hm]; [apply ReflectOwnExactProofs.o_reach_new|].
+  pose proof (ReflectOwnExactProofs.o_reach_call D s m IH Hm) as Hc.
+  unfold o_cache_schema_checked. unfold o_cache_schema in Hc.
+  destruct (o_message_schema D (size D) s m) as [[s1 r]| | |]; cbn [fst] in *; try exact IH.
+  destruct (names_check (fst s1) (registered (fst s) (fst s1))) as [u| | |]; cbn [fst]; [exact Hc|exact IH|exact IH|exact IH].
+Qed.
+
+(* transparency of the ANSWERS of the repaired cache (wf_keys): after any history, an answer is the schema a
+   fresh cache builds for that message; and what a fresh repaired cache answers, the build of every
+   repaired cache with a history produces (whether its check then passes is the part not proved) *)
+Theorem o_checked_cache_answer_is_fresh D : ReflectInvProofs.wf_keys D -> forall s m r,
+  o_checked_reach D s -> In m (d_msgs D) ->
+  snd (o_cache_schema_checked D (size D) s m) = Ok r ->
+  snd (o_cache_schema D (size D) ([], []) m) = Ok r.
+Proof.
+  intros Hwf s m r Hs Hm H.
+  destruct (o_cache_schema_checked D (size D) s m) as [s1 o] eqn:E. cbn [snd] in H. subst o.
+  destruct (o_cache_schema_checked_ok D (size D) s m s1 r E) as [Hb _].
+  apply (ReflectOwnExactProofs.o_cache_transparent D Hwf s m r (o_checked_reach_is_reach D s Hs) Hm).
+  rewrite Hb. reflexivity.
+Qed.
+
+Theorem o_checked_fresh_answer_is_built D : ReflectInvProofs.wf_keys D -> forall s m r,
+  o_checked_reach D s -> In m (d_msgs D) ->
+  snd (o_cache_schema_checked D (size D) ([], []) m) = Ok r ->
+  snd (o_cache_schema D (size D) s m) = Ok r.
+Proof.
+  intros Hwf s m r Hs Hm H.
+  apply (ReflectOwnExactProofs.o_cache_transparent D Hwf s m r (o_checked_reach_is_reach D s Hs) Hm).
+  destruct (o_cache_schema_checked D (size D) ([], []) m) as [s1 o] eqn:E. cbn [snd] in H. subst o.
+  destruct (o_cache_schema_checked_ok D (size D) ([], []) m s1 r E) as [Hb _]. rewrite Hb. reflexivity.
+Qed.
+
+(* ---- file order and the repaired reader (wf_keys): what the existing order theorems give.  If the
+   repaired reader accepts the files in one order, the BUILD succeeds in every other order; and two orders
+   that are both accepted give sets that agree on every message and enum they both hold.  (Not proved:
+   that the name check then passes in the other order too.) *)
+Theorem o_reflect_checked_order D : ReflectInvProofs.wf_keys D -> forall fs fs',
+  Permutation.Permutation fs fs' ->
+  (forall S ow, o_reflect_checked D fs = Ok (S, ow) -> exists S' ow', o_reflect D fs' = Ok (S', ow')) /\
+  (forall S ow S' ow', o_reflect_checked D fs = Ok (S, ow) -> o_reflect_checked D fs' = Ok (S', ow') ->
+     (forall m r r', In m (d_msgs D) -> lookup S (msg_key m) = Some (Linked r) -> lookup S' (msg_key m) = Some (Linked r') -> r = r') /\
+     (forall e r r', In e (d_enums D) -> lookup S (enum_key e) = Some (Linked r) -> lookup S' (enum_key e) = Some (Linked r') -> r = r')).
+Proof.
+  intros Hwf fs fs' Hp. split.
+  - intros S ow HC.
+    apply (proj1 (ReflectOwnExactProofs.o_reflect_file_order_independent D Hwf fs fs' Hp)).
+    exists S, ow. exact (o_reflect_checked_ok D fs (S, ow) HC).
+  - intros S ow S' ow' HC HC'.
+    pose proof (o_reflect_ok D fs S ow (o_reflect_checked_ok D fs (S, ow) HC)) as HS.
+    pose proof (o_reflect_ok D fs' S' ow' (o_reflect_checked_ok D fs' (S', ow') HC')) as HS'.
+    destruct (ReflectOrderProofs.collect_perm fs fs' Hp) as [H1 H2].
+    exact (proj2 (ReflectOrderProofs.reflect_order_independent D Hwf fs fs' H1 H2) S S' HS HS').
 Qed.
